@@ -424,7 +424,7 @@ type obs struct {
 	first    int64
 	last     int64
 	lo       int64
-	st       []int   // per offset lo..last
+	st       []int    // per offset lo..last
 	errs     []string // per offset
 	mismatch string
 	fwdN     int
@@ -2073,7 +2073,7 @@ func main() {
 		"segment files are never shorter than the configured size (initFileWithZeroes fsyncs the file before use)",
 		"damage = one byte or the whole 4-byte length field of one record / one index file; crash = durable image + subset of dirty 4 KiB pages or byte-prefix (in write order) of the non-durable records",
 		"nil commit-offset provider (offline tools) is evaluated with a relaxed oracle: errors are within contract, only panics, wrong contents and silent loss of entries of a cleanly written log count",
-		"records are 35/3029 bytes (v2) with 1..7 records per segment; segment size = cap*record+3",
+		"records are 33 bytes (v2 small), 25 (v1 small) or about 3 KiB (large, page-straddling) with 1/2/3/7 records per segment; segment size = cap*record+3",
 	}
 	rc := run.Finish("every base history [k synced, m un-synced appends; k,m in 0..3; 1/2/3/7 records per segment; sync each/batch; codec v1/v2; small/large records] x {every subset of dirty pages, every byte-prefix of the non-durable records} x {index absent/empty/half/full, every index prefix} x {never-flushed segment file present/absent} x commit offset in {-1..lastSynced, nil}; and every clean image [n entries] x {every header byte x value set, length field x boundary set, every payload byte x 5 values, free-space garbage, every index byte x value set, every index truncation/extension/removal} x commit offset in {nil,-1..n-1}; distinct = distinct image byte contents per base history")
 	if infraErr {
